@@ -549,7 +549,12 @@ func checkC17(p *Prog, r *Report) {
 					}
 					return false
 				}
-				if len(elems) != 2 || !(elems[0] == outRoot.Name() || rootedAtParam(elems[0]) && !strings.Contains(elems[0], "(")) {
+				wantOut := flagWiredKey(p, tr, "out")
+				okFirst := elems[0] == outRoot.Name() || rootedAtParam(elems[0]) && !strings.Contains(elems[0], "(")
+				if wantOut != "" {
+					okFirst = len(elems) > 0 && elems[0] == wantOut
+				}
+				if len(elems) != 2 || !okFirst {
 					okPath, whyPath = false, "path elements are "+ja[0]+": the first must be the -out directory and the second coq.ImportToPath(...)"
 				} else {
 					// the second element is computed from F.PkgPath of one file value F — written as
@@ -906,6 +911,34 @@ func checkLoaderAndFlags(p *Prog, r *Report, tr *ssa.Function, tpCall *ssa.Call)
 	wire("out", 1)
 	wire("dir", 2)
 	wire("ignore-errors", 3)
+	// inside translate each setting is used where it belongs: the parameter that carries -dir is what the loader
+	// gets as its directory, the one that carries -out is the root of every written path (two strings of the same
+	// type are easily exchanged)
+	wiredParam := func(flagName string) string {
+		addr := flagVar[flagName]
+		if addr == nil {
+			return ""
+		}
+		for i, a := range tc.Call.Args {
+			if i >= len(tr.Params) {
+				break
+			}
+			if ld, ok := a.(*ssa.UnOp); ok {
+				if ld.X == addr {
+					return tr.Params[i].Name()
+				}
+				if fa, ok := addr.(*ssa.FieldAddr); ok && fa.X == ld.X {
+					return tr.Params[i].Name() // a field of the options value passed here
+				}
+			}
+		}
+		return ""
+	}
+	if dp := wiredParam("dir"); dp != "" && len(tpCall.Call.Args) >= 2 {
+		d := paramDeps(tpCall.Call.Args[1])
+		r.Check("R17e", "the loader's directory is the -dir setting", instrPos(tpCall), len(d) == 1 && d[dp],
+			fmt.Sprintf("TranslatePackages is given %s as its directory; the parameter that carries -dir is %s", sk(tpCall.Call.Args[1]), dp))
+	}
 	// the command line is parsed after every registration and before the values are read; without the parse
 	// (or with a flag registered after it) -out, -dir and -ignore-errors keep their defaults whatever was given
 	if len(regs) > 0 {
@@ -1158,4 +1191,52 @@ func wireByUse(p *Prog, r *Report, mainF, tr *ssa.Function, tc *ssa.Call, flagNa
 		}
 	}
 	r.Check("R17e", key, instrPos(tc), found, fmt.Sprintf("the value of the variable registered for -%s (%s) does not reach the place where %s uses that setting", flagName, vk, tr.Name()))
+}
+
+// flagWiredKey: the key, in translate's terms, of the value that carries the command-line flag: the parameter that
+// receives the flag variable at the call in main, or parameter.field when the flag is registered on a field of an
+// options value passed as a whole. "" if it cannot be determined.
+func flagWiredKey(p *Prog, tr *ssa.Function, flagName string) string {
+	mainF := p.Func(cmdGoosePkg, "main")
+	if mainF == nil {
+		return ""
+	}
+	var addr ssa.Value
+	p.instrs(mainF, func(b *ssa.BasicBlock, i int, in ssa.Instruction) {
+		if c, ok := in.(*ssa.Call); ok {
+			n := calleeName(c)
+			if (n == "flag.StringVar" || n == "flag.BoolVar") && len(c.Call.Args) >= 3 {
+				if name, ok := constString(c.Call.Args[1]); ok && name == flagName {
+					addr = c.Call.Args[0]
+				}
+			}
+		}
+	})
+	if addr == nil {
+		return ""
+	}
+	key := ""
+	p.instrs(mainF, func(b *ssa.BasicBlock, i int, in ssa.Instruction) {
+		c, ok := in.(*ssa.Call)
+		if !ok || calleeOf(&c.Call) != tr {
+			return
+		}
+		for i, a := range c.Call.Args {
+			if i >= len(tr.Params) {
+				break
+			}
+			ld, ok := a.(*ssa.UnOp)
+			if !ok {
+				continue
+			}
+			if ld.X == addr {
+				key = tr.Params[i].Name()
+			}
+			if fa, ok := addr.(*ssa.FieldAddr); ok && fa.X == ld.X {
+				_, fld, _ := fieldOf(fa)
+				key = tr.Params[i].Name() + "." + fld
+			}
+		}
+	})
+	return key
 }
